@@ -699,10 +699,13 @@ impl<'i> ValidatorErrorBuilder<'i> {
 
     /// Check that all variables were defined.
     fn check_undefined_variables(mut self) -> Self {
-        for (name, span) in self.validator.unresolved_variables.iter() {
-            if !self.validator.contains_variable(name, *span) {
-                let error = ParserError::undefined_variable(*span, *name);
-                add_to_errors(&mut self.errors, *span, Token::Call, error);
+        // MultiMap::iter() yields only the first value of every key: all usages have to be checked
+        for (name, spans) in self.validator.unresolved_variables.iter_all() {
+            for span in spans {
+                if !self.validator.contains_variable(name, *span) {
+                    let error = ParserError::undefined_variable(*span, *name);
+                    add_to_errors(&mut self.errors, *span, Token::Call, error);
+                }
             }
         }
 
